@@ -87,7 +87,7 @@ def check_one(ref, av, sc, chi2, what, float32):
     # conditioning of the aperture interpolation (a request 1e-6 above a knot of a steep table loses 6 digits)
     slack += r.get('cond_slack', 0.)
     av_tol = r['av_tol'] if not float32 else None
-    if av_tol is not None and abs(av - r['av']) > av_tol + 1e-9 * abs(r['av']):
+    if av_tol is not None and not (abs(av - r['av']) <= av_tol + 1e-9 * abs(r['av'])):
         return ('c02:av_not_optimal', '%s: at d=%r kpc reported A_V %r, clipped least-squares optimum %r' % (
             what, ref.distances[j], av, r['av']))
     S_rep = ref.objective_at(j, av)
@@ -236,17 +236,17 @@ def run_large(case, ctx):
             if i is None:
                 fail('large grid: model %s missing from the result' % names[m], 'c02:model_set')
             c_ref = chi[m, best[m]]
-            if abs(float(info.chi2[i]) - c_ref) > 1e-8 * max(c_ref, 1.):
+            if not (abs(float(info.chi2[i]) - c_ref) <= 1e-8 * max(c_ref, 1.)):
                 fail('large grid (%d models x %d distances x %d filters): model %s reports chi2 %r (A_V %r, scale %r), the '
                      'minimum over the distance grid is %r at d=%r kpc' % (nm, nd, nf, names[m], float(info.chi2[i]),
                                                                            float(info.av[i]), float(info.sc[i]), c_ref,
                                                                            dist[best[m]]), 'c02:not_grid_minimum')
-            if abs(float(info.sc[i]) - logd[best[m]]) > 1e-9:
+            if not (abs(float(info.sc[i]) - logd[best[m]]) <= 1e-9):
                 second = np.partition(chi[m], 1)[1] if nd > 1 else np.inf
                 if second - c_ref > 1e-7 * max(c_ref, 1.):
                     fail('large grid: model %s reports scale %r, the grid minimum is at log d = %r' % (
                         names[m], float(info.sc[i]), logd[best[m]]), 'c02:scale_not_on_grid')
-            elif abs(float(info.av[i]) - av[m, best[m]]) > 1e-7 * (1 + abs(av[m, best[m]])):
+            elif not (abs(float(info.av[i]) - av[m, best[m]]) <= 1e-7 * (1 + abs(av[m, best[m]]))):
                 fail('large grid: model %s reports A_V %r, optimum %r' % (names[m], float(info.av[i]), av[m, best[m]]),
                      'c02:av_not_optimal')
         del fitter
